@@ -2,6 +2,7 @@ package c07
 
 import (
 	"testing"
+	"time"
 
 	"pgregory.net/rapid"
 
@@ -16,6 +17,6 @@ func TestFree(t *testing.T) {
 		ID: "C07", Name: "free", Rule: freerun.Rule,
 		Gen:     func(t *rapid.T) freerun.Case { return freerun.Gen(t, freerun.Profile{Inc: 1, Cycle: 5, Gauge: 1}) },
 		Run:     freerun.Run,
-		Retries: 30,
+		Retries: 30, HangAfter: 60 * time.Second,
 	})
 }
